@@ -83,4 +83,20 @@ example : judgeEv (pop ++ [.rp 3, .rpDone 3, .tflags 0, .tickOff, .tickEnd, .tfl
                            .ctx 2 false none true, .beatEnd 2, .tickEnd, .hbs 0 [4, 3, 2]]) = [] := by
   decide
 
+-- clause "no heart_beat object stays behind as command_giver after a pass of the backend loop"
+example : judgeEv (pop ++ [.living 2, .tickBegin, .beat 2, .ctx 2 true (some 2) true, .beatEnd 2, .beat 3, .ctx 3 false none true,
+                           .beatEnd 3, .tickEnd, .cgAfter (some 2)]) ≠ [] := by decide
+example : judgeEv (pop ++ [.tickBegin, .beat 2, .err 2, .tickAbort, .cgAfter (some 2)]) ≠ [] := by decide
+-- clause "a tick served right after an abandoned round is a round of its own" / "pass limit only between rounds"
+example : judgeEv (pop ++ [.tickBegin, .beat 2, .flag 2, .err 2, .tickAbort, .beat 3]) ≠ [] := by decide     -- no tickBegin
+example : judgeEv (pop ++ [.tickBegin, .beat 2, .passLimit]) ≠ [] := by decide
+-- clause "an item that moved away in move_or_destruct() survives; one that is reported moved must exist"
+example : judgeEv (pop ++ [.into 3 2, .hook 3 2, .moved 3 4, .hookMoved 3, .dest 0 2, .hbs 0 [4]]) ≠ [] := by decide   -- o3 must still beat
+example : judgeEv (pop ++ [.into 3 2, .hook 3 2, .dest 3 3, .hookMoved 3]) ≠ [] := by decide
+-- clause "a refused destruct inside move_or_destruct() is an uncaught error": inside a heart_beat it abandons the round
+example : judgeEv (pop ++ [.into 3 2, .tickBegin, .beat 2, .beatEnd 2, .beat 4, .hook 3 2, .errR, .beatEnd 4]) ≠ [] := by decide
+example : judgeEv (pop ++ [.into 3 2, .tickBegin, .beat 2, .beatEnd 2, .beat 3, .beatEnd 3, .tickEnd,
+                           .tickBegin, .beat 2, .beatEnd 2, .beat 3, .beatEnd 3, .beat 4, .hook 3 2, .errR, .tickAbort, .cgAfter none,
+                           .hbs 0 [3, 2]]) = [] := by decide
+
 end NV.C11
